@@ -11,6 +11,8 @@
                    of s up to length k
      Commit        the leadership of s commits position i if the entry there has term s and a
                    majority of [vs] acknowledged a length > i in term s
+     Lose          a node crashes and restarts: it keeps its term and vote, loses any suffix of its
+                   log beyond what it acknowledged, and is no longer a candidate
    Messages can be delayed, duplicated, reordered, lost (every step may use any slice of the
    append-only ghost logs at any time).  History variables: every vote records the candidate's
    and the voter's log at that moment.  Unbounded nodes, terms, lengths, steps. *)
@@ -36,6 +38,8 @@ Record sstate := mkS {
   acc : N -> list N;                    (* leaderships a node accepted entries from, or led *)
   ldr : N -> option N;                  (* leader of each term *)
   commits : list (nat * aent * N);      (* (position, entry, term of the committing leadership) *)
+  cnd : N -> bool;                      (* volatile: the node campaigns in its current term and has not crashed,
+                                           stepped down or moved on since *)
 }.
 
 Definition lastT (l : list aent) : N := match rev l with [] => 0%N | e :: _ => fst e end.
@@ -59,34 +63,38 @@ Definition nlog (s : sstate) (n : N) : list aent := logs (sg s) (KNode n).
 Inductive sstep : sstate -> sstate -> Prop :=
 | SCampaign s c t :
     (tm s c < t)%N ->
-    sstep s (mkS (sg s) (updN (tm s) c t) (votes s) (acks s) (acc s) (ldr s) (commits s))
+    sstep s (mkS (sg s) (updN (tm s) c t) (votes s) (acks s) (acc s) (ldr s) (commits s) (updN (cnd s) c true))
 | SVote s v t c :
-    (tm s v <= t)%N -> tm s c = t -> active (sg s) t = false ->
+    (tm s v <= t)%N -> tm s c = t -> cnd s c = true -> active (sg s) t = false ->
     (forall r, In r (votes s) -> vr_voter r = v -> vr_term r = t -> vr_cand r = c) ->
     utd (nlog s c) (nlog s v) ->
     sstep s (mkS (sg s) (updN (tm s) v t)
-                 (mkV v t c (nlog s c) (nlog s v) :: votes s) (acks s) (acc s) (ldr s) (commits s))
+                 (mkV v t c (nlog s c) (nlog s v) :: votes s) (acks s) (acc s) (ldr s) (commits s) (cnd s))
 | SBecomeLeader s c t g' :
-    tm s c = t -> active (sg s) t = false -> majority (voted_for s t c) ->
+    tm s c = t -> cnd s c = true -> active (sg s) t = false -> majority (voted_for s t c) ->
     gstep (sg s) g' ->
     g' = mkG (upd (logs (sg s)) (KLead t) (nlog s c)) (fun t' => if N.eqb t' t then true else active (sg s) t') ->
-    sstep s (mkS g' (tm s) (votes s) (acks s) (updN (acc s) c (t :: acc s c)) (updN (ldr s) t (Some c)) (commits s))
+    sstep s (mkS g' (tm s) (votes s) (acks s) (updN (acc s) c (t :: acc s c)) (updN (ldr s) t (Some c)) (commits s) (cnd s))
 | SLeaderAppend s c t x g' :
     tm s c = t -> ldr s t = Some c -> active (sg s) t = true -> nlog s c = L s t ->
     g' = mkG (upd (upd (logs (sg s)) (KLead t) (L s t ++ [(t, x)])) (KNode c) (L s t ++ [(t, x)])) (active (sg s)) ->
-    sstep s (mkS g' (tm s) (votes s) (acks s) (acc s) (ldr s) (commits s))
+    sstep s (mkS g' (tm s) (votes s) (acks s) (acc s) (ldr s) (commits s) (cnd s))
 | SFollowerAppend s m t prev cnt pt g' :
     (tm s m <= t)%N -> active (sg s) t = true ->
     prev_term (nlog s m) prev = Some pt -> prev_term (L s t) prev = Some pt ->
     g' = mkG (upd (logs (sg s)) (KNode m) (fappend (nlog s m) prev (firstn cnt (skipn prev (L s t))))) (active (sg s)) ->
-    sstep s (mkS g' (updN (tm s) m t) (votes s) (acks s) (updN (acc s) m (t :: acc s m)) (ldr s) (commits s))
+    sstep s (mkS g' (updN (tm s) m t) (votes s) (acks s) (updN (acc s) m (t :: acc s m)) (ldr s) (commits s) (updN (cnd s) m false))
 | SAck s m t k :
     tm s m = t -> active (sg s) t = true -> agree k (nlog s m) (L s t) -> (k <= length (nlog s m))%nat ->
-    sstep s (mkS (sg s) (tm s) (votes s) ((m, t, k) :: acks s) (acc s) (ldr s) (commits s))
+    sstep s (mkS (sg s) (tm s) (votes s) ((m, t, k) :: acks s) (acc s) (ldr s) (commits s) (cnd s))
+| SLose s m k g' :
+    (forall t k', In (m, t, k') (acks s) -> (k' <= k)%nat) ->
+    g' = mkG (upd (logs (sg s)) (KNode m) (firstn k (nlog s m))) (active (sg s)) ->
+    sstep s (mkS g' (tm s) (votes s) (acks s) (acc s) (ldr s) (commits s) (updN (cnd s) m false))
 | SCommit s t i e :
     active (sg s) t = true -> nth_error (L s t) i = Some e -> fst e = t ->
     majority (acked s t i) ->
-    sstep s (mkS (sg s) (tm s) (votes s) (acks s) (acc s) (ldr s) ((i, e, t) :: commits s)).
+    sstep s (mkS (sg s) (tm s) (votes s) (acks s) (acc s) (ldr s) ((i, e, t) :: commits s) (cnd s)).
 
 Definition sinit (s : sstate) : Prop :=
   init (sg s) /\ (forall t, active (sg s) t = false) /\ votes s = [] /\ acks s = [] /\
@@ -100,9 +108,9 @@ Inductive sreach : sstate -> Prop :=
 Lemma sstep_gstep s s' : sstep s s' -> gstep (sg s) (sg s') \/ sg s' = sg s.
 Proof.
   intros H.
-  destruct H as [s c t Ht | s v t c Hv Hc Ha Hu Hutd | s c t g' Hc Ha Hm Hg Eg
+  destruct H as [s c t Ht | s v t c Hv Hc Hcn Ha Hu Hutd | s c t g' Hc Hcn Ha Hm Hg Eg
                 | s c t x g' Hc Hl Ha Hn Eg | s m t prev cnt pt g' Hm Ha P1 P2 Eg
-                | s m t k Hm Ha Hag Hk | s t i e Ha Hn He Hm]; cbn.
+                | s m t k Hm Ha Hag Hk | s m k g' Hlk Eg | s t i e Ha Hn He Hm]; cbn.
   - right; reflexivity.
   - right; reflexivity.
   - left. exact Hg.
@@ -110,6 +118,7 @@ Proof.
     pose proof (LeaderAppend (sg s) c t x Ha Hn) as G. cbn zeta in G. exact G.
   - left. subst g'. unfold L, nlog in *. eapply FollowerAppend; eassumption.
   - right; reflexivity.
+  - left. subst g'. unfold nlog. apply LoseSuffix.
   - right; reflexivity.
 Qed.
 
@@ -268,7 +277,7 @@ Record SInv (s : sstate) : Prop := mkSInv {
   i5 : forall r1 r2, In r1 (votes s) -> In r2 (votes s) ->
        vr_voter r1 = vr_voter r2 -> vr_term r1 = vr_term r2 -> vr_cand r1 = vr_cand r2;
   i6 : forall r, In r (votes s) -> tm s (vr_cand r) = vr_term r -> active (sg s) (vr_term r) = false ->
-       nlog s (vr_cand r) = vr_clog r;
+       cnd s (vr_cand r) = true -> nlog s (vr_cand r) = vr_clog r;
   i7 : forall r, In r (votes s) -> ldr s (vr_term r) = Some (vr_cand r) ->
        agree (length (vr_clog r)) (vr_clog r) (L s (vr_term r)) /\
        (length (vr_clog r) <= length (L s (vr_term r)))%nat;
@@ -372,7 +381,7 @@ Qed.
 
 Lemma pres_campaign s c t :
   SInv s -> (tm s c < t)%N ->
-  SInv (mkS (sg s) (updN (tm s) c t) (votes s) (acks s) (acc s) (ldr s) (commits s)).
+  SInv (mkS (sg s) (updN (tm s) c t) (votes s) (acks s) (acc s) (ldr s) (commits s) (updN (cnd s) c true)).
 Proof.
   intros I Ht. assert (GE : forall n, (tm s n <= updN (tm s) c t n)%N) by (intros n; apply updN_ge; lia).
   constructor; cbn.
@@ -383,10 +392,9 @@ Proof.
   - exact (i3b s I).
   - intros r H. destruct (i4 s I r H) as [A B]. pose proof (GE (vr_voter r)). pose proof (GE (vr_cand r)). split; lia.
   - exact (i5 s I).
-  - intros r H T A. apply (i6 s I r H); [|exact A].
-    destruct (N.eqb_spec (vr_cand r) c) as [E|NE].
+  - intros r H T A K. destruct (N.eqb_spec (vr_cand r) c) as [E|NE].
     + exfalso. rewrite E, updN_same in T. destruct (i4 s I r H) as [_ B]. rewrite E in B. lia.
-    + rewrite updN_other in T by exact NE. exact T.
+    + rewrite updN_other in T by exact NE. rewrite updN_other in K by exact NE. exact (i6 s I r H T A K).
   - exact (i7 s I).
   - exact (i8 s I).
   - intros m t' k H. destruct (i9 s I _ _ _ H) as (A & B & C). repeat split; auto. specialize (GE m). lia.
@@ -406,7 +414,7 @@ Lemma pres_vote s v t c :
   (tm s v <= t)%N -> tm s c = t -> active (sg s) t = false ->
   (forall r, In r (votes s) -> vr_voter r = v -> vr_term r = t -> vr_cand r = c) ->
   utd (nlog s c) (nlog s v) ->
-  SInv (mkS (sg s) (updN (tm s) v t) (mkV v t c (nlog s c) (nlog s v) :: votes s) (acks s) (acc s) (ldr s) (commits s)).
+  SInv (mkS (sg s) (updN (tm s) v t) (mkV v t c (nlog s c) (nlog s v) :: votes s) (acks s) (acc s) (ldr s) (commits s) (cnd s)).
 Proof.
   intros I Hv Hc Ha Hu Hutd.
   assert (GE : forall n, (tm s n <= updN (tm s) v t n)%N) by (intros n; apply updN_ge; exact Hv).
@@ -428,9 +436,9 @@ Proof.
     + symmetry. apply (Hu r2 H2); [symmetry; exact EV|symmetry; exact ET].
     + apply (Hu r1 H1); assumption.
     + exact (i5 s I _ _ H1 H2 EV ET).
-  - intros r [E|H] T A.
+  - intros r [E|H] T A K.
     + subst r. reflexivity.
-    + apply (i6 s I r H); [|exact A].
+    + apply (i6 s I r H); [|exact A|exact K].
       destruct (N.eqb_spec (vr_cand r) v) as [E|NE].
       * rewrite E, updN_same in T. destruct (i4 s I r H) as [_ B]. rewrite E in B |- *. lia.
       * rewrite updN_other in T by exact NE. exact T.
@@ -463,7 +471,7 @@ Qed.
 
 Lemma pres_ack s m t k :
   SInv s -> tm s m = t -> active (sg s) t = true -> agree k (nlog s m) (L s t) -> (k <= length (nlog s m))%nat ->
-  SInv (mkS (sg s) (tm s) (votes s) ((m, t, k) :: acks s) (acc s) (ldr s) (commits s)).
+  SInv (mkS (sg s) (tm s) (votes s) ((m, t, k) :: acks s) (acc s) (ldr s) (commits s) (cnd s)).
 Proof.
   intros I Hm Ha Hag Hk. constructor; cbn.
   - exact (i1 s I).
@@ -499,7 +507,7 @@ Lemma pres_follower_append s m t prev cnt pt :
   (tm s m <= t)%N -> active (sg s) t = true ->
   prev_term (nlog s m) prev = Some pt -> prev_term (L s t) prev = Some pt ->
   SInv (mkS (mkG (upd (logs (sg s)) (KNode m) (fappend (nlog s m) prev (firstn cnt (skipn prev (L s t))))) (active (sg s)))
-            (updN (tm s) m t) (votes s) (acks s) (updN (acc s) m (t :: acc s m)) (ldr s) (commits s)).
+            (updN (tm s) m t) (votes s) (acks s) (updN (acc s) m (t :: acc s m)) (ldr s) (commits s) (updN (cnd s) m false)).
 Proof.
   intros I Hm Ha P1 P2.
   assert (GE : forall n, (tm s n <= updN (tm s) m t n)%N) by (intros n; apply updN_ge; exact Hm).
@@ -513,7 +521,7 @@ Proof.
   assert (NL : forall n, n <> m -> upd (logs (sg s)) (KNode m) l' (KNode n) = nlog s n)
     by (intros n NE; apply upd_other; congruence).
   assert (ML : upd (logs (sg s)) (KNode m) l' (KNode m) = l') by apply upd_same.
-  constructor; unfold L, nlog in *; cbn [sg tm votes acks acc ldr commits logs active].
+  constructor; unfold L, nlog in *; cbn [sg tm votes acks acc ldr commits cnd logs active].
   - eapply inv_step; [exact (i1 s I)|exact G].
   - intros k. destruct k as [n|t']; cbn [kbound tm].
     + destruct (N.eq_dec n m) as [->|NE].
@@ -526,9 +534,9 @@ Proof.
   - exact (i3b s I).
   - intros r H. destruct (i4 s I r H) as [A B]. pose proof (GE (vr_voter r)). pose proof (GE (vr_cand r)). split; lia.
   - exact (i5 s I).
-  - intros r H T A. destruct (N.eq_dec (vr_cand r) m) as [E|NE].
+  - intros r H T A K. destruct (N.eq_dec (vr_cand r) m) as [E|NE].
     + exfalso. rewrite E, updN_same in T. rewrite <- T in A. congruence.
-    + rewrite (NL _ NE). rewrite (updN_other _ _ _ _ NE) in T. exact (i6 s I r H T A).
+    + rewrite (NL _ NE). rewrite (updN_other _ _ _ _ NE) in T. rewrite (updN_other _ _ _ _ NE) in K. exact (i6 s I r H T A K).
   - intros r H LD. rewrite LL. exact (i7 s I r H LD).
   - intros r H. destruct (i8 s I r H) as (A & B & C). refine (conj _ (conj _ C)).
     + intros i e Hi. unfold L; cbn [sg logs active]. rewrite LL. exact (A i e Hi).
@@ -563,7 +571,7 @@ Lemma pres_leader_append s c t x :
   SInv s ->
   tm s c = t -> ldr s t = Some c -> active (sg s) t = true -> nlog s c = L s t ->
   SInv (mkS (mkG (upd (upd (logs (sg s)) (KLead t) (L s t ++ [(t, x)])) (KNode c) (L s t ++ [(t, x)])) (active (sg s)))
-            (tm s) (votes s) (acks s) (acc s) (ldr s) (commits s)).
+            (tm s) (votes s) (acks s) (acc s) (ldr s) (commits s) (cnd s)).
 Proof.
   intros I Hc Hl Ha Hn.
   set (l := L s t ++ [(t, x)]).
@@ -592,7 +600,7 @@ Proof.
     destruct (N.eq_dec s' t) as [->|NE]; [|rewrite (LO _ NE) in A'; exact A'].
     rewrite LT in A'. unfold l in A'.
     destruct (agree_snoc_inv i (L s t) t x (L s t0) t0 A' (proj2 (i2 s I (KLead t0))) LT0 LEN) as [R _]. exact R. }
-  constructor; unfold L, nlog; cbn [sg tm votes acks acc ldr commits logs active]; fold lg.
+  constructor; unfold L, nlog; cbn [sg tm votes acks acc ldr commits cnd logs active]; fold lg.
   - eapply inv_step; [exact (i1 s I)|exact G].
   - intros k. destruct k as [n|t']; cbn [kbound tm].
     + destruct (N.eq_dec n c) as [->|NE].
@@ -605,9 +613,9 @@ Proof.
   - exact (i3b s I).
   - exact (i4 s I).
   - exact (i5 s I).
-  - intros r H T A. destruct (N.eq_dec (vr_cand r) c) as [E|NE].
+  - intros r H T A K. destruct (N.eq_dec (vr_cand r) c) as [E|NE].
     + exfalso. rewrite E in T. rewrite <- T, Hc in A. congruence.
-    + rewrite (NO _ NE). exact (i6 s I r H T A).
+    + rewrite (NO _ NE). exact (i6 s I r H T A K).
   - intros r H LD. destruct (i7 s I r H LD) as [A B]. unfold L; cbn [sg logs]; fold lg.
     destruct (N.eq_dec (vr_term r) t) as [E|NE].
     + rewrite E in *. rewrite LT. unfold l. split; [apply agree_app_r; assumption|rewrite app_length; lia].
@@ -725,14 +733,14 @@ Proof.
 Qed.
 
 Lemma cand_has_committed s c t i e t0 :
-  SInv s -> tm s c = t -> active (sg s) t = false -> majority (voted_for s t c) ->
+  SInv s -> tm s c = t -> cnd s c = true -> active (sg s) t = false -> majority (voted_for s t c) ->
   In (i, e, t0) (commits s) -> (t0 < t)%N -> agree (S i) (nlog s c) (L s t0).
 Proof.
-  intros I Hc Ha Hm HC LT.
+  intros I Hc Hcn Ha Hm HC LT.
   destruct (i13 s I _ _ _ HC) as (A0 & HN & FE & MA & D).
   destruct (acked_voted_meet s t0 i t c MA Hm) as (q & k & r & INA & LK & INR & E4 & E5 & E3).
   assert (CL : nlog s c = vr_clog r).
-  { rewrite <- E3. apply (i6 s I r INR); [rewrite E3, E5; exact Hc|rewrite E5; exact Ha]. }
+  { rewrite <- E3. apply (i6 s I r INR); [rewrite E3, E5; exact Hc|rewrite E5; exact Ha|rewrite E3; exact Hcn]. }
   rewrite CL.
   apply (vote_carries s r q t0 k i e I INR INA (eq_sym E4) LK); try assumption; [rewrite E5; exact LT|].
   intros s' AS L1 _. exact (D s' AS L1).
@@ -740,11 +748,11 @@ Qed.
 
 Lemma pres_become_leader s c t :
   SInv s ->
-  tm s c = t -> active (sg s) t = false -> majority (voted_for s t c) ->
+  tm s c = t -> cnd s c = true -> active (sg s) t = false -> majority (voted_for s t c) ->
   SInv (mkS (mkG (upd (logs (sg s)) (KLead t) (nlog s c)) (fun t' => if N.eqb t' t then true else active (sg s) t'))
-            (tm s) (votes s) (acks s) (updN (acc s) c (t :: acc s c)) (updN (ldr s) t (Some c)) (commits s)).
+            (tm s) (votes s) (acks s) (updN (acc s) c (t :: acc s c)) (updN (ldr s) t (Some c)) (commits s) (cnd s)).
 Proof.
-  intros I Hc Ha Hm.
+  intros I Hc Hcn Ha Hm.
   set (lg := upd (logs (sg s)) (KLead t) (nlog s c)).
   set (ac := fun t' => if N.eqb t' t then true else active (sg s) t').
   assert (G : gstep (sg s) (mkG lg ac)) by (apply (BecomeLeader (sg s) c t Ha)).
@@ -760,7 +768,7 @@ Proof.
   { intros t' H NE. rewrite AO in H by exact NE. exact H. }
   assert (LN : ldr s t = None).
   { destruct (ldr s t) as [c'|] eqn:E; [|reflexivity]. destruct (i3a s I _ _ E) as [A _]. congruence. }
-  constructor; unfold L, nlog; cbn [sg tm votes acks acc ldr commits logs active]; fold lg; fold ac.
+  constructor; unfold L, nlog; cbn [sg tm votes acks acc ldr commits cnd logs active]; fold lg; fold ac.
   - eapply inv_step; [exact (i1 s I)|exact G].
   - intros k. destruct k as [n|t']; cbn [kbound tm].
     + rewrite NL. exact (i2 s I (KNode n)).
@@ -776,12 +784,12 @@ Proof.
     + rewrite (updN_other _ _ _ _ NE). apply (i3b s I). apply ACT; assumption.
   - exact (i4 s I).
   - exact (i5 s I).
-  - intros r H T A. rewrite NL. apply (i6 s I r H T).
+  - intros r H T A K. rewrite NL. apply (i6 s I r H T); [|exact K].
     destruct (N.eq_dec (vr_term r) t) as [E|NE]; [rewrite E in A; congruence|]. rewrite AO in A by exact NE. exact A.
   - intros r H LD. destruct (N.eq_dec (vr_term r) t) as [E|NE].
     + rewrite E in *. rewrite updN_same in LD. inversion LD as [EC].
       rewrite LT. assert (CL : nlog s c = vr_clog r).
-      { rewrite EC. apply (i6 s I r H); [rewrite <- EC, E; exact Hc|rewrite E; exact Ha]. }
+      { rewrite EC. apply (i6 s I r H); [rewrite <- EC, E; exact Hc|rewrite E; exact Ha|rewrite <- EC; exact Hcn]. }
       rewrite CL. split; [apply agree_refl|lia].
     + rewrite (updN_other _ _ _ _ NE) in LD. rewrite (LO _ NE). exact (i7 s I r H LD).
   - intros r H. destruct (i8 s I r H) as (A & B & C). refine (conj _ (conj _ C)).
@@ -810,7 +818,7 @@ Proof.
     destruct (AM _ A) as [X Y]. rewrite (LO _ Y).
     refine (conj X (conj B (conj C (conj M _)))).
     intros s' AS LT0. destruct (N.eq_dec s' t) as [->|NE].
-    + rewrite LT. exact (cand_has_committed s c t i e t0 I Hc Ha Hm H LT0).
+    + rewrite LT. exact (cand_has_committed s c t i e t0 I Hc Hcn Ha Hm H LT0).
     + rewrite (LO _ NE). apply D; [apply ACT; assumption|exact LT0].
 Qed.
 
@@ -839,7 +847,7 @@ Qed.
 
 Lemma pres_commit s t i e :
   SInv s -> active (sg s) t = true -> nth_error (L s t) i = Some e -> fst e = t -> majority (acked s t i) ->
-  SInv (mkS (sg s) (tm s) (votes s) (acks s) (acc s) (ldr s) ((i, e, t) :: commits s)).
+  SInv (mkS (sg s) (tm s) (votes s) (acks s) (acc s) (ldr s) ((i, e, t) :: commits s) (cnd s)).
 Proof.
   intros I Ha HN FE MA. constructor; cbn.
   - exact (i1 s I).
@@ -859,18 +867,63 @@ Proof.
     refine (conj Ha (conj HN (conj FE (conj MA _)))). exact (commit_carried s t i e I Ha HN FE MA).
 Qed.
 
+Lemma pres_lose s m k :
+  SInv s -> (forall t k', In (m, t, k') (acks s) -> (k' <= k)%nat) ->
+  SInv (mkS (mkG (upd (logs (sg s)) (KNode m) (firstn k (nlog s m))) (active (sg s)))
+            (tm s) (votes s) (acks s) (acc s) (ldr s) (commits s) (updN (cnd s) m false)).
+Proof.
+  intros I Hlk.
+  set (l' := firstn k (nlog s m)).
+  assert (G : gstep (sg s) (mkG (upd (logs (sg s)) (KNode m) l') (active (sg s)))) by (unfold l', nlog; apply LoseSuffix).
+  assert (LL : forall t', upd (logs (sg s)) (KNode m) l' (KLead t') = L s t') by (intros; apply upd_other; discriminate).
+  assert (NL : forall n, n <> m -> upd (logs (sg s)) (KNode m) l' (KNode n) = nlog s n)
+    by (intros n NE; apply upd_other; congruence).
+  assert (ML : upd (logs (sg s)) (KNode m) l' (KNode m) = l') by apply upd_same.
+  constructor; unfold L, nlog in *; cbn [sg tm votes acks acc ldr commits cnd logs active].
+  - eapply inv_step; [exact (i1 s I)|exact G].
+  - intros k0. destruct k0 as [n|t']; cbn [kbound tm].
+    + destruct (N.eq_dec n m) as [->|NE].
+      * rewrite ML. destruct (i2 s I (KNode m)) as [M B]. split; [apply mono_firstn; exact M|apply bounded_firstn; exact B].
+      * rewrite (NL n NE). exact (i2 s I (KNode n)).
+    + rewrite LL. exact (i2 s I (KLead t')).
+  - exact (i3a s I).
+  - exact (i3b s I).
+  - exact (i4 s I).
+  - exact (i5 s I).
+  - intros r H T A K. destruct (N.eq_dec (vr_cand r) m) as [E|NE].
+    + exfalso. rewrite E, updN_same in K. discriminate.
+    + rewrite (NL _ NE). rewrite (updN_other _ _ _ _ NE) in K. exact (i6 s I r H T A K).
+  - intros r H LD. rewrite LL. exact (i7 s I r H LD).
+  - intros r H. destruct (i8 s I r H) as (A & B & C). refine (conj _ (conj _ C)).
+    + intros i e Hi. unfold L; cbn [sg logs active]. rewrite LL. exact (A i e Hi).
+    + intros i e Hi. unfold L; cbn [sg logs active]. rewrite LL. exact (B i e Hi).
+  - intros m' t' k' H. rewrite LL. exact (i9 s I _ _ _ H).
+  - intros m' t' k' i H LK P. rewrite LL.
+    assert (OLD : agree (S i) (logs (sg s) (KNode m')) (logs (sg s) (KLead t'))).
+    { apply (i10 s I m' t' k' i H LK). intros s' IN LT. specialize (P s' IN LT). rewrite !LL in P. exact P. }
+    destruct (N.eq_dec m' m) as [->|NE]; [|rewrite (NL _ NE); exact OLD].
+    rewrite ML. unfold l', agree. rewrite firstn_firstn. specialize (Hlk _ _ H).
+    replace (Nat.min (S i) k) with (S i) by lia. exact OLD.
+  - intros r m' t' k' i H HA EM LT LK P. rewrite LL.
+    apply (i11 s I r m' t' k' i H HA EM LT LK). intros s' AS L1 L2. specialize (P s' AS L1 L2). rewrite !LL in P. exact P.
+  - exact (i12 s I).
+  - intros i e t' H. destruct (i13 s I _ _ _ H) as (A & B & C & M & D). rewrite LL. repeat split; auto;
+    try (intros s' AS LT; rewrite LL; exact (D s' AS LT)).
+Qed.
+
 Theorem sinv_step s s' : SInv s -> sstep s s' -> SInv s'.
 Proof.
   intros I H.
-  destruct H as [s c t Ht | s v t c Hv Hc Ha Hu Hutd | s c t g' Hc Ha Hm Hg Eg
+  destruct H as [s c t Ht | s v t c Hv Hc Hcn Ha Hu Hutd | s c t g' Hc Hcn Ha Hm Hg Eg
                 | s c t x g' Hc Hl Ha Hn Eg | s m t prev cnt pt g' Hm Ha P1 P2 Eg
-                | s m t k Hm Ha Hag Hk | s t i e Ha Hn He Hm].
+                | s m t k Hm Ha Hag Hk | s m k g' Hlk Eg | s t i e Ha Hn He Hm].
   - apply pres_campaign; assumption.
   - apply pres_vote; assumption.
   - subst g'. apply pres_become_leader; assumption.
   - subst g'. apply pres_leader_append; assumption.
   - subst g'. eapply pres_follower_append; eassumption.
   - apply pres_ack; assumption.
+  - subst g'. apply pres_lose; assumption.
   - apply pres_commit; assumption.
 Qed.
 
@@ -925,13 +978,14 @@ Lemma L_stable s s' t j x :
   SInv s -> sstep s s' -> active (sg s) t = true -> nth_error (L s t) j = Some x -> nth_error (L s' t) j = Some x.
 Proof.
   intros I H AT HN.
-  destruct H as [s c t1 Ht | s v t1 c Hv Hc Ha Hu Hutd | s c t1 g' Hc Ha Hm Hg Eg
+  destruct H as [s c t1 Ht | s v t1 c Hv Hc Hcn Ha Hu Hutd | s c t1 g' Hc Hcn Ha Hm Hg Eg
                 | s c t1 x1 g' Hc Hl Ha Hn Eg | s m t1 prev cnt pt g' Hm Ha P1 P2 Eg
-                | s m t1 k Hm Ha Hag Hk | s t1 i e Ha Hn He Hm]; unfold L in *; cbn [sg logs]; try exact HN.
+                | s m t1 k Hm Ha Hag Hk | s m k g' Hlk Eg | s t1 i e Ha Hn He Hm]; unfold L in *; cbn [sg logs]; try exact HN.
   - subst g'. cbn [logs]. rewrite upd_other; [exact HN|]. intro X. inversion X; subst. congruence.
   - subst g'. cbn [logs]. rewrite upd_other by discriminate.
     destruct (N.eq_dec t t1) as [->|NE]; [|rewrite upd_other by congruence; exact HN].
     rewrite upd_same. rewrite nth_error_app1 by (apply nth_error_Some_lt in HN; exact HN). exact HN.
+  - subst g'. cbn [logs]. rewrite upd_other by discriminate. exact HN.
   - subst g'. cbn [logs]. rewrite upd_other by discriminate. exact HN.
 Qed.
 
@@ -949,19 +1003,21 @@ Proof.
   exists i, e, t. split; [eapply commits_stable; eassumption|]. split; [exact LE|]. eapply L_stable; eassumption.
 Qed.
 
-(* a node never loses or replaces what it may treat as committed *)
-Theorem can_learn_stable s s' m j t : SInv s -> sstep s s' -> can_learn s m j t -> can_learn s' m j t.
+(* a node never replaces what it may treat as committed: as long as it still holds position j
+   (it may lose a not yet acknowledged suffix of its log in a crash), the committed value is there *)
+Theorem can_learn_stable s s' m j t :
+  SInv s -> sstep s s' -> can_learn s m j t -> (S j <= length (nlog s' m))%nat -> can_learn s' m j t.
 Proof.
-  intros I H (i & e & HC & LE & LT & AG).
+  intros I H (i & e & HC & LE & LT & AG) HOLD.
   pose proof (commits_stable s s' _ H HC) as HC'. pose proof (tm_stable s s' m H) as TM'.
   exists i, e. refine (conj HC' (conj LE (conj (N.le_trans _ _ _ LT TM') _))).
   destruct (i13 s I _ _ _ HC) as (AT & HN & FE & MA & D).
   assert (LJ : (S j <= length (L s t))%nat) by (apply nth_error_Some_lt in HN; lia).
   assert (LM : (S j <= length (nlog s m))%nat) by (apply agree_sym in AG; apply (agree_len _ _ _ AG); exact LJ).
   clear HC' TM'.
-  destruct H as [s c t1 Ht | s v t1 c Hv Hc Ha Hu Hutd | s c t1 g' Hc Ha Hm Hg Eg
+  destruct H as [s c t1 Ht | s v t1 c Hv Hc Hcn Ha Hu Hutd | s c t1 g' Hc Hcn Ha Hm Hg Eg
                 | s c t1 x1 g' Hc Hl Ha Hn Eg | s m1 t1 prev cnt pt g' Hm Ha P1 P2 Eg
-                | s m1 t1 k Hm Ha Hag Hk | s t1 i1 e1 Ha Hn He Hm]; unfold L, nlog in *; cbn [sg logs]; try exact AG.
+                | s m1 t1 k Hm Ha Hag Hk | s m1 k g' Hlk Eg | s t1 i1 e1 Ha Hn He Hm]; unfold L, nlog in *; cbn [sg logs]; try exact AG.
   - subst g'. cbn [logs]. rewrite (upd_other _ _ _ (KNode m)) by discriminate.
     rewrite upd_other; [exact AG|]. intro X. inversion X; subst. congruence.
   - subst g'. cbn [logs].
@@ -981,6 +1037,10 @@ Proof.
     { destruct (N.eq_dec t1 t) as [->|NT]; [apply agree_refl|].
       eapply agree_le; [|apply (D t1 Ha); lia]. lia. }
     exact (fappend_keeps (sg s) (KNode m1) t1 prev cnt pt _ j (i1 s I) P1 P2 AG AT2 LM).
+  - subst g'. cbn [logs sg] in *. rewrite (upd_other _ _ _ (KLead t)) by discriminate.
+    destruct (N.eq_dec m m1) as [->|NE]; [|rewrite upd_other by congruence; exact AG].
+    rewrite upd_same in *. rewrite firstn_length in HOLD.
+    unfold agree. rewrite firstn_firstn. replace (Nat.min (S j) k) with (S j) by lia. exact AG.
 Qed.
 
 (* ---------- executions: protocol steps interleaved with nodes learning commits ---------- *)
